@@ -1,5 +1,5 @@
 //@unit reader
-//@props C01 C02
+//@props C01 C02 C19 C03
 // U-reader: the two loops every input goes through first (src/events.rs): InputList::from_reader
 // (the XML reader loop with the open-tag index stack) and tagify_events (the indexed scan with its
 // skip-ahead). Proved: no index out of bounds, no `expect` on an Err, no arithmetic overflow, both
@@ -74,6 +74,13 @@ pub open spec fn links_ok(evs: Seq<InputEvent>) -> bool {
 impl SvgElement {
 //@item src/element.rs :: impl SvgElement :: fn set_event_range
 //@end
+}
+impl InputEvent {
+    /// verified in U-xmlsink (C19.content.decoded, C19.content.decoded_whenever_possible)
+    #[verifier::external_body]
+    pub fn text_string(&self) -> (r: Option<String>)
+        ensures self.event is Text ==> (match xml_unescape(self.event->Text_0.raw()) { Some(s) => r is Some && r->Some_0@ == s, None => r is None })
+    { unimplemented!() }
 }
 impl Tag {
 //@item src/events.rs :: impl Tag :: fn set_text
@@ -166,6 +173,8 @@ impl SvgElement {
 //@ replace[R-utf8] <<<String::from_utf8(t.to_vec())?>>> => <<<utf8_string(t.to_vec())?>>>
 //@ before <<<        ev_idx += 1;>>>
 //@ | let ghost g_e0 = ev_idx;
+//@ before#1 <<<                if let Some(t) = tags.last_mut() {>>>
+//@ | assert(xml_unescape(t.raw()) is Some ==> xml_unescape(t.raw()) == Some(text@)); // a tag's text / tail is CHARACTER DATA (it is escaped when written as OutputEvent::Text): the reader's raw text must be decoded, or `&amp;` comes out as `&amp;amp;` @C19.tag_text.decoded @C02.tag_text.escaped_once @C03.tag_text.decoded
 //@ loop 1
 //@ invariant
 //@ - ev_idx <= events.events@.len()
